@@ -108,11 +108,20 @@ def run(ck):
         buf = io.BytesIO()
         las.write(buf)
         data = buf.getvalue()
-        ofmt = ck.rng.choice([x for x in range(11) if x != fmt])
-        other = laspy.PackedPointRecord.zeros(2, laspy.PointFormat(ofmt))
+        variant = ck.rng.choice(["other_id", "same_id_extra_dims", "same_id_extra_type"])
+        ck.count("foreign:" + variant)
+        if variant == "other_id":
+            ofmt = ck.rng.choice([x for x in range(11) if x != fmt])
+            opf = laspy.PointFormat(ofmt)
+        else:
+            # same point format id, different extra dimensions: another point format (another record layout)
+            ofmt = fmt
+            opf = laspy.PointFormat(fmt)
+            opf.add_extra_dimension(laspy.ExtraBytesParams("other", "u1" if variant == "same_id_extra_dims" else "f8"))
+        other = laspy.PackedPointRecord.zeros(2, opf)
         b2 = io.BytesIO(data)
-        inp = {"kind": "foreign", "minor": minor, "fmt": fmt, "other": ofmt}
-        ck.case(("foreign", minor, fmt, ofmt, data), nontrivial=True)
+        inp = {"kind": "foreign", "minor": minor, "fmt": fmt, "other": ofmt, "variant": variant}
+        ck.case(("foreign", minor, fmt, ofmt, variant, data), nontrivial=True)
         try:
             ap = laspy.open(b2, mode="a", closefd=False)
             try:
@@ -127,6 +136,7 @@ def run(ck):
         if b2.getvalue() != data:
             ck.fail("a refused append changed the file", inp)
     rescale_layer(ck, 60 if q else 1500)
+    compressed_layer(ck, 25 if q else 500)
     out = ck.driver(lines)
     bad = None
     if out is None or len(out) != len(lines):
@@ -140,6 +150,55 @@ def run(ck):
     ck.failures.sort(key=lambda f: (len(str(f["input"].get("sessions", ""))), len(str(f["input"]))))
     if ck.tier == "thorough":
         ck.leanchecker(["LasModel.Props.C06"])
+
+
+def compressed_layer(ck, n_cases):
+    """append sessions on compressed files (conforming backend double): same point sequence, statistics, VLRs and
+    EVLRs as the file written at once"""
+    import laspy
+    try:
+        import lazrs
+        from laspy import LazBackend
+    except ImportError:
+        ck.count("compressed_layer_skipped_no_backend_double")
+        return
+    from . import c01
+    for ci in range(n_cases):
+        lazrs.CHUNK_SIZE = ck.rng.choice([3, 5, 7])
+        minor, fmt = ck.rng.choice(fio.PAIRS)
+        n0 = ck.rng.choice([0, 1, lazrs.CHUNK_SIZE, lazrs.CHUNK_SIZE + 1, 11])
+        evlrs = fio.rand_vlrs(ck.rng, True, 2) if minor >= 4 and ck.rng.random() < 0.7 else None
+        las = fio.make_las(ck.rng, minor, fmt, n0, vlrs=fio.rand_vlrs(ck.rng, False, 1), evlrs=evlrs)
+        size = las.header.point_format.size
+        extra = [fio.raw_records(ck.rng, size, ck.rng.choice([0, 1, lazrs.CHUNK_SIZE, 6])) for _ in range(ck.rng.randrange(1, 4))]
+        bk = ck.rng.choice([LazBackend.Lazrs, LazBackend.LazrsParallel])
+        inp = {"kind": "compressed_append", "minor": minor, "fmt": fmt, "n0": n0, "appended": [len(e) // size for e in extra],
+               "chunk_size": lazrs.CHUNK_SIZE, "backend": bk.name, "evlrs": None if evlrs is None else len(evlrs)}
+        ck.case(("c06laz", minor, fmt, n0, tuple(inp["appended"]), lazrs.CHUNK_SIZE, bk.name, las.points.array.tobytes()), nontrivial=True)
+        ck.count("compressed_append")
+        try:
+            comp = io.BytesIO()
+            las.write(comp, do_compress=True, laz_backend=bk)
+            comp = io.BytesIO(comp.getvalue())
+            with laspy.open(comp, mode="a", closefd=False, laz_backend=bk) as ap:
+                for r in extra:
+                    ap.append_points(rec_of(las, r))
+            got = laspy.read(io.BytesIO(comp.getvalue()), laz_backend=bk)
+            whole = fio.make_las(ck.rng, minor, fmt, 0, raw=las.points.array.tobytes() + b"".join(extra), vlrs=[c08.canon(v) and (v.user_id, v.record_id, v.description, bytes(v.record_data_bytes())) for v in las.vlrs],
+                                 evlrs=None if evlrs is None else evlrs)
+            ref = io.BytesIO()
+            whole.write(ref)
+            want = laspy.read(io.BytesIO(ref.getvalue()))
+        except Exception as e:
+            ck.fail(f"compressed append session raised {type(e).__name__}: {e}", inp)
+            continue
+        a, b = c01.canon_read(got).split(" "), c01.canon_read(want).split(" ")
+        a[10] = str(int(a[10]) & 0x3F)
+        a[16] = b[16] = "EVLRSTART"
+        if a != b:
+            k0 = next((i for i in range(min(len(a), len(b))) if a[i] != b[i]), -1)
+            ck.fail(f"compressed file after append reads differently from the file written at once (field #{k0}: {a[k0][:60]} vs {b[k0][:60]})", inp)
+    lazrs.CHUNK_SIZE = 5
 
 
 def rescale_layer(ck, n_cases):
